@@ -51,7 +51,8 @@ def run(prog, tier):
                      None, "__advance_walker calls per iteration", want=R.sym("self.n_walkers")))
     # chain_length derived from the store
     src = {U(s.targets[0]): U(s.value) for s in eadv.body if isinstance(s, ast.Assign)}
-    obs.append(struct_ob("ensemble-length", qual(c, eadv), src.get("self.chain_length") == "self.sample_probs.size",
+    obs.append(struct_ob("ensemble-length", qual(c, eadv), src.get("self.chain_length") in ("self.sample_probs.size", "len(self.sample_probs)",
+                                                                                            "self.sample_probs.shape[0]"),
                          f"chain_length must be the size of the stored log-probabilities; is `{src.get('self.chain_length')}`",
                          c.module.relpath, eadv.lineno))
 
@@ -304,6 +305,14 @@ def _lower_bound_ge1(expr):
         return expr.value >= 1
     if isinstance(expr, ast.Call) and U(expr.func) == "max":
         return any(_lower_bound_ge1(a) for a in expr.args)
+    if isinstance(expr, ast.BoolOp) and isinstance(expr.op, ast.Or) and len(expr.values) == 2 and _lower_bound_ge1(expr.values[1]):
+        # `int(q) or k`: q truncated to 0 gives k >= 1; otherwise the integer itself, >= 1 for a non-negative quotient (steps taken per
+        # second of run time - a count over a positive duration)
+        a = expr.values[0]
+        return isinstance(a, ast.Call) and U(a.func) == "int" and len(a.args) == 1 and isinstance(a.args[0], ast.BinOp) \
+            and isinstance(a.args[0].op, (ast.Div, ast.FloorDiv))
+    if isinstance(expr, ast.IfExp):
+        return _lower_bound_ge1(expr.body) and _lower_bound_ge1(expr.orelse)
     return False
 
 
